@@ -21,7 +21,8 @@ package mr
 //   position k of the option list (default: last).
 //
 // script = actions joined by '.', '-' = empty.  Actions:
-//   w<v> Write(v)      c<k> cancel(error k), c0 = cancel(nil)      p panic
+//   w<v> Write(v)      c<k> cancel(error k), c0 = cancel(nil)      p panic (string value)   pe panic with an ERROR value
+//   q    runtime.Goexit() (the user function ends here without returning; deferred calls of the library run)
 //   a    read the pipe until it is closed (reducer)                o read one value (reducer)
 //   s    stall until the call has returned to the harness          x cancel the harness context
 //   y    yield the processor a few times
@@ -150,7 +151,25 @@ func c10Script(s string) []string {
 	return strings.Split(s, ".")
 }
 
+// c10PanicErr: a panic whose value is an ERROR (action `pe`); the re-raised value must be this very value.
+type c10PanicErr struct{ name string }
+
+func (e c10PanicErr) Error() string { return "errval:" + e.name }
+
+// c10PanicVal: the value a user function panics with: a string (`p`) or an error value (`pe`).
+func c10PanicVal(a, name string) any {
+	if a == "pe" {
+		return c10PanicErr{name}
+	}
+	return name
+}
+
+func c10IsPanic(a string) bool { return a == "p" || a == "pe" }
+
 func c10PanicName(p any) string {
+	if pe, ok := p.(c10PanicErr); ok {
+		p = pe.name
+	}
 	s := fmt.Sprint(p)
 	switch {
 	case strings.HasPrefix(s, "pm") || s == "pr" || s == "pg":
@@ -379,8 +398,15 @@ func c10Exec(op []string) string {
 	// who = "m<i>" or "r"
 	common := func(who, a string, cancel func(error), write func(int)) bool {
 		switch {
-		case a == "p":
+		case c10IsPanic(a):
 			return false // handled by the caller (panic value differs)
+		case a == "q":
+			// runtime.Goexit: the goroutine the library runs this user function on ends here; deferred calls run,
+			// recover() sees nothing.  For the property this is a return of the user function.
+			if who == "r" {
+				ev.fire("re", "re")
+			}
+			runtime.Goexit()
 		case a == "s":
 			stall()
 		case a == "x":
@@ -441,7 +467,7 @@ func c10Exec(op []string) string {
 			if !common("m"+is, a, cancel, wr.Write) {
 				atomic.AddInt32(&panicked, 1)
 				ev.fire("pm"+is, "pm"+is, "pm")
-				panic("pm" + is)
+				panic(c10PanicVal(a, "pm"+is))
 			}
 		}
 	}
@@ -453,10 +479,10 @@ func c10Exec(op []string) string {
 		defer ev.fire("e"+is, "e"+is)
 		for _, a := range ms[item] {
 			switch {
-			case a == "p":
+			case c10IsPanic(a):
 				atomic.AddInt32(&panicked, 1)
 				ev.fire("pm"+is, "pm"+is, "pm")
-				panic("pm" + is)
+				panic(c10PanicVal(a, "pm"+is))
 			case a[0] == 'c':
 				k := verifh.Atoi(a[1:])
 				ev.fire("cbm"+is+"_"+strconv.Itoa(k), "cbm"+is, "cb")
@@ -502,7 +528,7 @@ func c10Exec(op []string) string {
 				if !common("r", a, cancel, write) {
 					atomic.AddInt32(&panicked, 1)
 					ev.fire("rp", "rp")
-					panic("pr")
+					panic(c10PanicVal(a, "pr"))
 				}
 			}
 		}
@@ -1039,6 +1065,65 @@ func c10VaryErr(r *verifh.Rng, c c10Cfg) c10Cfg {
 	return c
 }
 
+// c10Outcomes enumerates every way a user function can END at every entry point: normal return, cancel (see
+// c10ErrKinds), panic with a string, panic with an error value, runtime.Goexit — for a mapper, the reducer, a Finish /
+// FinishVoid function, a ForEach mapper; alone and while the other functions are still running.
+func c10Outcomes(r *verifh.Rng) []c10Cfg {
+	var out []c10Cfg
+	it := strconv.Itoa
+	for _, x := range []string{"p", "pe", "q", "y"} {
+		for _, api := range []string{"mr", "void", "chan"} {
+			for _, w := range []int{1, 2} {
+				c := c10Cfg{api: api, n: 2, w: w, ctx: "none", gp: -1, gx: -1}
+				c.m = [][]string{{"w1", x, "w3"}, {"w2"}}
+				c.r = []string{"a", "w7"}
+				out = append(out, c)
+				d := c10Cfg{api: api, n: 2, w: w, ctx: "none", gp: -1, gx: -1}
+				d.m = [][]string{{"w1"}, {"w2"}}
+				d.r = []string{"o", x, "a", "w7"}
+				out = append(out, d)
+				e := c10Cfg{api: api, n: 2, w: w, ctx: "none", gp: -1, gx: -1}
+				e.m = [][]string{{"w1"}, {"w2"}}
+				e.r = []string{"a", "w7", x}
+				out = append(out, e)
+			}
+		}
+		for _, api := range []string{"finish", "finishvoid", "each"} {
+			for n := 1; n <= 3; n++ {
+				i := r.Intn(n)
+				c := c10Cfg{api: api, n: n, w: n, ctx: "none", gp: -1, gx: -1}
+				c.m = make([][]string, n)
+				for j := range c.m {
+					c.m[j] = []string{"us" + it(n-1)}
+				}
+				c.m[i] = append(c.m[i], x)
+				if api == "finish" && x == "q" {
+					c.m[i] = append(c.m[i], "c5") // never reached: the function neither returns an error nor nil
+				}
+				out = append(out, c)
+			}
+		}
+	}
+	return out
+}
+
+// c10VaryPanic re-expresses panics of a call as panics with an error value.
+func c10VaryPanic(r *verifh.Rng, c c10Cfg) c10Cfg {
+	c = c10Clone(c)
+	sub := func(sc []string) {
+		for i, a := range sc {
+			if a == "p" && r.Chance(1, 2) {
+				sc[i] = "pe"
+			}
+		}
+	}
+	for _, sc := range c.m {
+		sub(sc)
+	}
+	sub(c.r)
+	return c
+}
+
 // c10ErrKinds enumerates every error VALUE class at every place an error enters the library: a mapper's cancel, the
 // reducer's cancel, the return value of a Finish function — on every entry point that takes one, alone and against a
 // second cancel / an early reducer write / a function that must no longer run.
@@ -1282,7 +1367,7 @@ func c10SafeStall(c c10Cfg) bool {
 			if a == "s" {
 				seen = true
 			}
-			if a == "p" && !seen {
+			if c10IsPanic(a) && !seen {
 				return false
 			}
 		}
@@ -1331,7 +1416,7 @@ func c10Random(r *verifh.Rng) c10Cfg {
 	c := c10Plain(r, n, w)
 	c.api = r.PickS("mr", "mr", "mr", "void")
 	nf := r.Pick(0, 1, 1, 2, 2, 3)
-	acts := []string{"p", "c0", "c5", "c6", "x", "y", "s", "w4"}
+	acts := []string{"p", "c0", "c5", "c6", "x", "y", "s", "w4", "pe", "q"}
 	for f := 0; f < nf; f++ {
 		a := acts[r.Intn(len(acts))]
 		d := c10Clone(c)
@@ -1340,7 +1425,7 @@ func c10Random(r *verifh.Rng) c10Cfg {
 			d.m[t] = c10Insert(d.m[t], r.Intn(len(d.m[t])+1), a)
 		case t == n:
 			d.r = c10Insert(d.r, r.Intn(len(d.r)+1), a)
-		case t == n+1 && a == "p":
+		case t == n+1 && c10IsPanic(a):
 			d.gp = r.Intn(n + 1)
 		case t == n+1 && a == "x":
 			d.gx = r.Intn(n + 1)
@@ -1695,12 +1780,15 @@ func c10Gen(r *verifh.Rng) []verifh.Section {
 	{
 		r4 := r.Fork()
 		for i := range lines {
-			if strings.Contains(lines[i], "c") && r4.Chance(1, 3) {
+			if r4.Chance(1, 3) {
 				if c, ok := c10ParseLineAny(lines[i]); ok {
-					lines[i] = c10VaryErr(r4, c).String()
+					lines[i] = c10VaryPanic(r4, c10VaryErr(r4, c)).String()
 				}
 			}
 		}
+	}
+	for _, c := range c10Outcomes(r) {
+		lines = append(lines, c10Vary(r, c).String())
 	}
 	for rep := verifh.Scale(1, 4); rep > 0; rep-- {
 		for _, c := range c10ErrKinds(r) {
